@@ -12,6 +12,8 @@ def run(tier, seed, replay=None):
     N = core.NCPU
     q = tier == "quick"
     plans = [
+        ("xml-soup-1char", ["xml", "--mode", "sink", "--gen", "text", "--n", 400 if q else 6000, "--gc", "--chunk", "chars"], N),
+        ("xml-structured-cuts", ["xml", "--mode", "sink", "--n", 300 if q else 5000, "--gc", "--chunk", "some"], N),
         ("enum-families-k3-1char", ["parse", "--mode", "enum", "--k", 3, "--pieces", 10 if q else 14, "--gc", "--chunk", "chars", "--loud"], N),
         ("enum-families-k4-1char", ["parse", "--mode", "enum", "--k", 4, "--pieces", 9, "--gc", "--chunk", "chars", "--loud"], N * 2, "thorough"),
         ("random-cuts", ["parse", "--mode", "random", "--n", 400 if q else 6000, "--maxpieces", 14, "--gc", "--chunk", "some", "--loud"], N),
